@@ -6,5 +6,5 @@ cp "$f" /tmp/mut.bak
 sed -i "$2" "$f"
 if cmp -s "$f" /tmp/mut.bak; then echo "MUTATION DID NOT APPLY"; fi
 (cd /repo && git diff --no-color -- "$1" | grep '^[-+]' | grep -v '^+++\|^---' | head -6)
-/verif/bin/govc verify "$3" 2>&1 | grep -v "file:" | cut -c1-220 | tail -${4:-6}
+${GOVC:-/verif/bin/govc} verify "$3" 2>&1 | grep -v "file:" | cut -c1-220 | tail -${4:-6}
 cp /tmp/mut.bak "$f"
